@@ -134,7 +134,59 @@ class Region(object):
         return None
 
     def flat_index(self, e, env):
-        """element access expression -> (base var E, flat index Poly)"""
+        """element access expression -> (base var E, flat index Poly); a local pointer bound to &A[e] / A + e is resolved to A"""
+        v, idx = self._flat_index(e, env)
+        if v is not None and ("ptr", v.name) in env:
+            base, off = env[("ptr", v.name)]
+            if idx is None or off is None:
+                return base, None
+            return base, idx + off
+        return v, idx
+
+    def pointer_target(self, rhs, env):
+        """rhs of a pointer assignment -> (base var E, offset Poly) if it is &A[e], A + e, A (array / pointer variable), else None"""
+        r = rhs
+        while r is not None and r.k == "cast":
+            r = r.a[0]
+        if r is None:
+            return None
+        if r.k == "un" and r.op == "&" and r.a[0].k in ("idx", "un"):
+            v, idx = self.flat_index(r.a[0], env)
+            if v is not None and idx is not None:
+                return v, idx
+            return None
+        if r.k == "bin" and r.op in ("+", "-") and r.a[0].ty and ("*" in r.a[0].ty or "[" in r.a[0].ty):
+            b = r.a[0]
+            while b.k == "cast":
+                b = b.a[0]
+            if b.k == "var":
+                off = self.form(r.a[1], env)
+                if off is None:
+                    return None
+                if r.op == "-":
+                    off = -off
+                if ("ptr", b.name) in env:
+                    b0, o0 = env[("ptr", b.name)]
+                    return b0, o0 + off
+                return b, off
+            return None
+        if r.k == "var" and r.ty and ("*" in r.ty or "[" in r.ty):
+            if ("ptr", r.name) in env:
+                return env[("ptr", r.name)]
+            if r.scope in ("param",) or "[" in (r.ty or ""):
+                return r, Poly.const(0)
+        return None
+
+    def bind_alias(self, name, ty, rhs, env):
+        if not ty or "*" not in ty:
+            return
+        t = self.pointer_target(rhs, env) if rhs is not None else None
+        if t is not None and t[0].name != name:
+            env[("ptr", name)] = t
+        else:
+            env.pop(("ptr", name), None)
+
+    def _flat_index(self, e, env):
         if e.k == "un" and e.op == "*":
             b = e.a[0]
             if b.k == "var":
@@ -180,6 +232,7 @@ class Region(object):
     def havoc(self, env, names):
         for n in names:
             env[n] = unk(n)
+            env.pop(("ptr", n), None)
 
     def record_expr(self, e, env, ctx, stmt):
         """collect accesses in expression e, then apply scalar assignments to env"""
@@ -231,6 +284,10 @@ class Region(object):
         if e.k == "asg" and e.a[0].k == "var":
             name = e.a[0].name
             self.drop_guards(ctx, name)
+            if e.op == "=":
+                self.bind_alias(name, e.a[0].ty, e.a[1] if top else None, env)
+            else:
+                env.pop(("ptr", name), None)
             if top:
                 rhs = self.form(e.a[1], env)
                 if e.op == "=":
@@ -276,8 +333,10 @@ class Region(object):
                 self.record_expr(s.init, env, ctx, s)
                 f = self.form(s.init, env)
                 env[s.var.name] = f if f is not None else unk(s.var.name)
+                self.bind_alias(s.var.name, s.var.ty, s.init, env)
             else:
                 env[s.var.name] = unk(s.var.name)
+                env.pop(("ptr", s.var.name), None)
         elif k == "expr":
             self.record_expr(s.e, env, ctx, s)
         elif k == "return":
